@@ -79,3 +79,91 @@ def run_cases(cases, workers=14, **kw):
     import functools
     with ProcessPoolExecutor(workers, initializer=_init) as ex:
         return list(ex.map(functools.partial(run_case, **kw), cases, chunksize=1))
+
+
+# ---------------------------------------------------------------------------------------------------
+# C13: run the emitted unit-test suite of a feature case
+
+def classify_test(name):
+    """pure name projection: test name -> (rpc snake, kind, pager)."""
+    import re
+    base = re.sub(r'\[.*$', '', name)
+    if not base.startswith('test_'):
+        return None
+    body = base[len('test_'):]
+    pager = bool(re.search(r'_(pager|pages)$', body))
+    kind = 'grpc'
+    if re.search(r'(^|_)rest(_|$)', body):
+        kind = 'rest'
+    elif re.search(r'_async(_|$)|_asyncio(_|$)', body):
+        kind = 'grpc-async'
+    return body, kind, pager
+
+
+def run_tests(case, timeout=900):
+    import subprocess
+    import xml.etree.ElementTree as ET
+    obs = dict(error=None, tests=[], failures=0, errors=0, failed_names=[])
+    api, opts = features.build(case['features'])
+    with gen.scratch() as work:
+        try:
+            creq = absapi.build_request(api, gen.option_string(opts, work, api))
+            res = gen.generate(creq)
+        except Exception as e:
+            obs['error'] = f'generation failed: {type(e).__name__}: {e}'.replace('\n', ' ')[:400]
+            return obs
+        out = gen.materialise(res, os.path.join(work, 'out'))
+        for fdp in creq.proto_file:
+            if fdp.name.startswith('other/'):
+                pipeline.write_pb2(fdp, out)
+        jx = os.path.join(work, 'junit.xml')
+        env = dict(os.environ); env.pop(gen.GUARD, None)
+        env['PYTHONPATH'] = os.pathsep.join([out] + ([env['PYTHONPATH']] if env.get('PYTHONPATH') else []))
+        try:
+            p = subprocess.run([gen.PY, '-W', 'ignore', '-m', 'pytest', '-q', '-p', 'no:cacheprovider', 'tests/unit', '--junitxml', jx],
+                               cwd=out, capture_output=True, text=True, env=env, timeout=timeout)
+        except subprocess.TimeoutExpired:
+            obs['error'] = 'emitted test-suite timed out'
+            return obs
+        if not os.path.exists(jx):
+            obs['error'] = 'pytest produced no junit file: ' + (p.stdout[-300:] + p.stderr[-300:])
+            return obs
+        root = ET.parse(jx).getroot()
+        names = set()
+        for tc in root.iter('testcase'):
+            names.add(tc.get('name'))
+            bad = [c.tag for c in tc if c.tag in ('failure', 'error')]
+            if bad:
+                obs['failed_names'].append(tc.get('name'))
+                if 'failure' in bad:
+                    obs['failures'] += 1
+                else:
+                    obs['errors'] += 1
+        obs['n_tests'] = len(names)
+        # group: a test belongs to rpc r if its body starts with r + '_' or equals r; longest rpc name wins
+        cands = sorted({features_snake(r) for r in case['rpcs']} | set(case['mixins']), key=len, reverse=True)
+        seen = set()
+        for n in names:
+            c = classify_test(n)
+            if not c:
+                continue
+            body, kind, pager = c
+            for r in cands:
+                if body == r or body.startswith(r + '_'):
+                    seen.add((r, kind, pager))
+                    if pager:
+                        seen.add((r, kind, False))
+                    break
+        obs['tests'] = [dict(rpc=r, kind=k, pager=pg) for r, k, pg in sorted(seen)]
+    return obs
+
+
+def features_snake(rpc):
+    import re
+    return re.sub(r'(?<!^)(?=[A-Z])', '_', rpc).lower() + ('_' if rpc == 'Import' else '')
+
+
+def run_tests_many(cases, workers=12):
+    from concurrent.futures import ProcessPoolExecutor
+    with ProcessPoolExecutor(workers, initializer=_init) as ex:
+        return list(ex.map(run_tests, cases, chunksize=1))
